@@ -495,6 +495,10 @@ spif_linked_list_vector_dup(spif_linked_list_t self)
     ASSERT_RVAL(!SPIF_LIST_ISNULL(self), (spif_linked_list_t) NULL);
     tmp = spif_linked_list_vector_new();
     memcpy(tmp, self, SPIF_SIZEOF_TYPE(linked_list));
+    if (SPIF_LINKED_LIST_ITEM_ISNULL(self->head)) {
+        /* Empty vector:  nothing to copy. */
+        return tmp;
+    }
     tmp->head = spif_linked_list_item_dup(self->head);
     for (src = self->head, dest = tmp->head; src->next; src = src->next, dest = dest->next) {
         dest->next = spif_linked_list_item_dup(src->next);
@@ -512,6 +516,10 @@ spif_linked_list_map_dup(spif_linked_list_t self)
     ASSERT_RVAL(!SPIF_LIST_ISNULL(self), (spif_linked_list_t) NULL);
     tmp = spif_linked_list_map_new();
     memcpy(tmp, self, SPIF_SIZEOF_TYPE(linked_list));
+    if (SPIF_LINKED_LIST_ITEM_ISNULL(self->head)) {
+        /* Empty map:  nothing to copy. */
+        return tmp;
+    }
     tmp->head = spif_linked_list_item_dup(self->head);
     for (src = self->head, dest = tmp->head; src->next; src = src->next, dest = dest->next) {
         dest->next = spif_linked_list_item_dup(src->next);
